@@ -324,6 +324,16 @@ def r24(F):
         wreach = variants.reach_variant(F, wr, 0, VAL, v, preds)
         writes_value = any(callee(wr.term(b)).endswith("::write_fmt") for b in wreach if wr.term(b)["k"] == "call" and "eprintln" not in (wr.term(b).get("macros") or []))
         recurses = any(callee(wr.term(b)) == ct.name for b in wreach if wr.term(b)["k"] == "call")
+        # ... on EVERY successful path for that variant, not just on one (a guard that returns Ok early - `if s.contains('\n') {
+        # return Ok(()) }` - leaves the name that convert_tuple has already written without value and newline)
+        if writes_name and writes_value:
+            vw = {b for b in wreach if wr.term(b)["k"] == "call" and callee(wr.term(b)).endswith("::write_fmt") and
+                  "eprintln" not in (wr.term(b).get("macros") or []) and "eprint" not in (wr.term(b).get("macros") or [])}
+            vw |= {b for b in wreach if wr.term(b)["k"] == "call" and callee(wr.term(b)) in (ct.name, "ucglib::convert::env::EnvConverter::convert_list")}
+            oks_ = util.result_blocks(wr, "Ok")
+            silent = variants.reach_variant(F, wr, 0, VAL, v, preds, removed=vw) & oks_
+            if silent:
+                writes_value = False
         ok = (not writes_name) or writes_value
         r.inst("env:%s" % v, ct.where(h), ok,
                ("NAME= and value written" if writes_name else "field skipped before the name is written") if ok else
